@@ -134,14 +134,20 @@ func (e *c20Env) close() {
 	e.server.Close()
 }
 
-func c20Wrapper(data []int) bufferSliceWrapper {
+// the payload of an arrival: a slice of the session's shared memory, written as the peer's Flush would
+// (buffer_manager.go is not instrumented here, so moveTo/recycle run inside one scheduler step)
+func c20Wrapper(env *c20Env, data []int) bufferSliceWrapper {
 	b := make([]byte, len(data))
 	for i, x := range data {
 		b[i] = byte(x)
 	}
-	sl := newBufferSlice(nil, b, 0, false)
-	sl.writeIndex = len(b)
-	return bufferSliceWrapper{fallbackSlice: sl}
+	sl, err := env.client.bufferManager.allocShmBuffer(uint32(len(b)))
+	if err != nil {
+		panic(err)
+	}
+	sl.append(b...)
+	sl.update()
+	return bufferSliceWrapper{offset: sl.offsetInShm}
 }
 
 func c20ErrClass(err error) string {
@@ -180,12 +186,7 @@ func c20Run(env *c20Env, c c20Case, mk func() vsChooser, maxSteps int) c20Case {
 	vsAddRegion(unsafe.Pointer(&s.state), 4)
 	vsAddRegion(unsafe.Pointer(&s.callbackInProcess), 4)
 	vsAddRegion(unsafe.Pointer(&s.callbackCloseState), 4)
-	// the peer's end of this stream: a close notification (queue element or, once the stream is in fallback
-	// state, socket event) half-closes it — that is how the notification is observed
-	ss := newStream(env.server, id)
-	env.server.streamLock.Lock()
-	env.server.streams[id] = ss
-	env.server.streamLock.Unlock()
+	tail0 := atomic.LoadInt64(env.client.queueManager.sendQueue.tail)
 	vs.active = true
 	// thread 0: the event loop
 	vsSpawn(func() {
@@ -193,7 +194,7 @@ func c20Run(env *c20Env, c c20Case, mk func() vsChooser, maxSteps int) c20Case {
 			if len(e) > 0 {
 				c20Mark(c20MarkData)
 				if st := env.client.getStream(id, streamOpened); st != nil {
-					_ = env.client.handleStreamMessage(st, c20Wrapper(e), streamOpened)
+					_ = env.client.handleStreamMessage(st, c20Wrapper(env, e), streamOpened)
 				}
 			} else {
 				c20Mark(c20MarkClose)
@@ -236,28 +237,9 @@ func c20Run(env *c20Env, c c20Case, mk func() vsChooser, maxSteps int) c20Case {
 	if env.client.getStreamById(id) != nil {
 		inTable = 1
 	}
-	// was the peer notified?  Expected exactly when a local close completed and the peer had not closed first
-	// (decided from the trace); an expected notification is awaited generously, an unexpected one briefly.
-	peerFirst := false
-	for _, st := range steps {
-		if st.Tid == 0 && st.Ev != nil && st.Ev.Kind == vsKCAS && st.Ev.Reg == 0 && st.Ev.C == 1 {
-			peerFirst = true
-		}
-	}
-	waitNote := time.Duration(0)
-	if c.NCl > 0 || cb.closeInside > 0 {
-		waitNote = 30 * time.Millisecond
-		if atomic.LoadUint32(&s.state) == uint32(streamClosed) && !peerFirst {
-			waitNote = 3 * time.Second
-		}
-	}
-	for end := time.Now().Add(waitNote); time.Now().Before(end) && atomic.LoadUint32(&ss.state) == uint32(streamOpened); {
-		time.Sleep(200 * time.Microsecond)
-	}
-	nsent := int64(0)
-	if atomic.LoadUint32(&ss.state) != uint32(streamOpened) {
-		nsent = 1
-	}
+	// close elements put on the send queue (the payload is real shared memory, so the stream never enters
+	// fallback state and its close notification always travels through the queue)
+	nsent := atomic.LoadInt64(env.client.queueManager.sendQueue.tail) - tail0
 	if env.server.IsClosed() || env.client.IsClosed() {
 		c.Feat = append(c.Feat, fmt.Sprintf("SESSION-DOWN(server closed=%v, client closed=%v)", env.server.IsClosed(), env.client.IsClosed()))
 	}
@@ -272,8 +254,8 @@ func c20Run(env *c20Env, c c20Case, mk func() vsChooser, maxSteps int) c20Case {
 	}
 	c.Pend = []int{}
 	for _, w := range s.pendingData.unread {
-		if w.fallbackSlice != nil {
-			for _, b := range w.fallbackSlice.data[w.fallbackSlice.readIndex:w.fallbackSlice.writeIndex] {
+		if sl, err := env.client.bufferManager.readBufferSlice(w.offset); err == nil {
+			for _, b := range sl.data[sl.readIndex:sl.writeIndex] {
 				c.Pend = append(c.Pend, int(b))
 			}
 		}
@@ -501,21 +483,8 @@ func c20Run(env *c20Env, c c20Case, mk func() vsChooser, maxSteps int) c20Case {
 			break
 		}
 	}
-	// leave the stream closed and clean (uncontrolled).  The peer's end ss is an instrumented Stream too: no
-	// notification for it may still be in flight when the next controlled run starts (the server's event loop
-	// would run instrumented code concurrently with the scheduler), so let the last one arrive, then take ss
-	// out of the server's table — later elements for this id find no stream.
-	wasOpen := atomic.LoadUint32(&s.state) != uint32(streamClosed)
+	// leave the stream closed and clean (uncontrolled)
 	_ = s.Close()
-	if wasOpen && atomic.LoadUint32(&ss.state) == uint32(streamOpened) {
-		for end := time.Now().Add(2 * time.Second); time.Now().Before(end) && atomic.LoadUint32(&ss.state) == uint32(streamOpened); {
-			time.Sleep(100 * time.Microsecond)
-		}
-	}
-	env.server.streamLock.Lock()
-	delete(env.server.streams, id)
-	env.server.streamLock.Unlock()
-	time.Sleep(200 * time.Microsecond)
 	return c
 }
 
